@@ -115,6 +115,16 @@ func runC11(out *bufio.Writer, st *Stats, r *Rng, k Kind, ch, L, K, G, M, procs 
 			}
 			stamp := small(k, 1+g%100)
 			for m := 0; m < M; m++ {
+				// by value: now and then take a NEW copy of the shared allocator value (a copy made after
+				// other goroutines have put buffers back through the original) and put back through the
+				// original: state kept by value inside the allocator would be duplicated by the copy
+				putTo := p
+				if !byPointer && lr.Intn(2) == 0 {
+					p = copyPool(pool)
+					if lr.Bool() {
+						putTo = pool
+					}
+				}
 				b := p.Get()
 				// freshness (C10 clauses) observed before anything else touches the buffer
 				shapeOK := b.Channels() == ch && b.Len() == ch*L && b.Cap() == ch*K && b.Length() == L && b.Capacity() == K && b.BitDepth() == k.Width()
@@ -157,7 +167,7 @@ func runC11(out *bufio.Writer, st *Stats, r *Rng, k Kind, ch, L, K, G, M, procs 
 				mu.Lock()
 				events = append(events, poolEvent{false, g, id, false, stampOK, true})
 				mu.Unlock()
-				p.Put(b)
+				putTo.Put(b)
 				if lr.Intn(4) == 0 {
 					runtime.Gosched()
 				}
